@@ -127,7 +127,31 @@ fn read_array(ctx: &duckscript::types::runtime::Context, handle: &str) -> Option
 fn run_cmd(cmd: &str, args: &[String]) -> String {
     let mut ctx = sdk_context();
     let written = set_args(&mut ctx, args);
-    match run_one(&mut ctx, cmd, written, Some("out".into())).0 {
+    // the caller may own variables named like a script command's working variables, and the
+    // output variable may already hold something (a text, a live array handle): neither is an
+    // input of the command
+    let h = crate::hash_str(&format!("{} {:?}", cmd, args));
+    if h % 3 == 0 {
+        for w in ["output", "value", "index", "counter", "length", "argument::1"] {
+            ctx.variables.insert(format!("scope::{}::{}", cmd, w), "CALLER".to_string());
+        }
+    }
+    if h % 5 == 0 {
+        ctx.variables.insert("out".to_string(), "old".to_string());
+    } else if h % 5 == 1 {
+        if let (CommandResult::Continue(Some(old)), _) = run_one(&mut ctx, "array", vec!["kept".to_string(), "array".to_string()], Some("out".into())) {
+            ctx.variables.insert("out".to_string(), old.clone());
+            ctx.variables.insert("keeper".to_string(), old);
+        }
+    }
+    let res = run_one(&mut ctx, cmd, written, Some("out".into())).0;
+    // an array the caller kept from before the call is still what it was
+    if let Some(k) = ctx.variables.get("keeper").cloned() {
+        if read_array(&ctx, &k) != Some(vec!["kept".to_string(), "array".to_string()]) {
+            return format!("caller-array-changed {:?}", read_array(&ctx, &k));
+        }
+    }
+    match res {
         CommandResult::Continue(Some(v)) => {
             if cmd == "split" || cmd == "range" {
                 match read_array(&ctx, &v) {
@@ -419,7 +443,16 @@ impl Prop for C16Prop {
             12 => ("contains", vec![hay.clone(), gen_needle(rng, &hay)]),
             13 => ("starts_with", vec![hay.clone(), gen_needle(rng, &hay)]),
             14 => ("ends_with", vec![hay.clone(), gen_needle(rng, &hay)]),
-            15 => ("equals", vec![hay.clone(), if rng.chance(1, 3) { hay.clone() } else { gen_needle(rng, &hay) }]),
+            15 => {
+                if rng.chance(1, 4) {
+                    // two spellings that a numeric reading would identify (equals compares TEXT)
+                    let pairs = [("1", "1.0"), ("1.10", "1.1"), ("007", "7"), ("0", "-0"), ("+5", "5"), ("1e3", "1000"), ("0x10", "16"), (" 1", "1"), ("9007199254740993", "9007199254740992"), ("NaN", "NaN"), ("inf", "Infinity"), ("true", "TRUE"), ("", " ")];
+                    let (a, b) = *rng.pick(&pairs);
+                    if rng.chance(1, 2) { ("equals", vec![a.to_string(), b.to_string()]) } else { ("equals", vec![b.to_string(), a.to_string()]) }
+                } else {
+                    ("equals", vec![hay.clone(), if rng.chance(1, 3) { hay.clone() } else { gen_needle(rng, &hay) }])
+                }
+            }
             16 => (*rng.pick(&["length", "is_empty"]), vec![hay.clone()]),
             17 => ("concat", (0..rng.below(4)).map(|_| gen_str(rng, 3)).collect()),
             18 => (*rng.pick(&["trim", "trim_start", "trim_end"]), vec![gen_ws_str(rng)]),
